@@ -26,6 +26,10 @@ def build():
     C.ext("Logger.info", model=common.noop, trusted_reason="logging")
     # the composition of the game-side contracts (C06 P1-P4, re-checked as C20b) with the credits handlers, natively: one
     # credit and two start presses in the same instant admit ONE player (finite check, the history fixed in c3a53ba)
+    C.finite_checks.append(common.native_script_check(
+        "c20_tiers.py", "the pricing table built by _calculate_pricing_tiers (an assumed input of the contracts on "
+                        "_add_credit_units) gives each tier, paid in full, exactly its credits and never lowers the balance; "
+                        "522 tier configurations"))
     C.finite_checks.append(common.native_demo_check(
         "c20_two_adds_one_credit.py",
         "two player-add requests posted back to back are judged one after the other: one credit pays for one player"))
